@@ -10,7 +10,8 @@ THEOREMS = ["Cspuz.C07.C07_groups_exact", "Cspuz.C07.C07_groups_nosize", "Cspuz.
 def correspond(ctx):
     ctx.extra["rule"] = ("random multigraphs n<=5 and grids, group_size absent / constant / IntVar / per-vertex list with None holes, border "
                          "flags as variables/negations/constants, both routes; program emitted by the real "
-                         "division_connected_variable_groups(_with_borders) and the returned ids vs the Lean model")
+                         "division_connected_variable_groups(_with_borders) and the returned ids vs the Lean model"
+                         "; size variables declared 1..n or each with its own narrow domain (k..k, a..a+1, a..a+2) + a handful of deterministic medium / LARGE instances per family (graphs.big_graphs: 40, 70 and 258..319 vertices -- vertex ids beyond CPython's small-int cache, more than 32 / 64 vertices --, boards up to 16x17); about half of the Graph objects are observed part-way through construction (accessors read, every graph constraint posted once on a throw-away Solver) before the remaining edges are added")
     graphcorr.run_cases(ctx, graphcorr.case_vgroups, ctx.n(300, 4000), "vgroups", with_ids=True, bigs=graphcorr.graph_bigs() + graphcorr.grid_bigs())
     graphcorr.run_cases(ctx, graphcorr.case_vgborders, ctx.n(300, 4000), "vgborders", bigs=graphcorr.graph_bigs())
     graphcorr.run_cases(ctx, graphcorr.case_vgborders_frame, ctx.n(80, 800), "vgborders_frame", bigs=graphcorr.grid_bigs())
